@@ -75,7 +75,7 @@ def kindOf (s : String) : UDKind :=
 
 def toMemberS (tb : Tables) (ms : List RawMember) : List MemberS :=
   ms.map (fun m => { id := tb.m m.name, topics := m.topics.map tb.t, kind := kindOf m.kind,
-                     claims := m.claims.map (fun c => (tb.t c.1, c.2)) })
+                     claims := if m.kind = "-" then [] else m.claims.map (fun c => (tb.t c.1, c.2)) })
 
 def toTopics (tb : Tables) (ts : List (String × List Int)) : Topics := ts.map (fun e => (tb.t e.1, e.2))
 
